@@ -364,6 +364,7 @@ func lexStatements(l *Lexer) stateFn {
 			l.next()
 			if t2 := l.peek(); t2 == '"' {
 				l.next()
+				l.stringOpen = r
 				return lexMultilineString
 			} else {
 				l.emit(STRING)
@@ -378,6 +379,7 @@ func lexStatements(l *Lexer) stateFn {
 			l.next()
 			if t := l.peek(); t == '\'' {
 				l.next()
+				l.stringOpen = r
 				return lexMultilineString
 			} else {
 				l.emit(STRING)
@@ -592,10 +594,12 @@ __goon:
 		case utf8.RuneError:
 			l.errorf("invalid UTF-8 rune")
 
-		case '"', '\'':
-			if t := l.peek(); t == '"' || t == '\'' {
+		case l.stringOpen:
+			// the string ends with three of the quotes it opened with; quotes of
+			// the other kind (also three in a row) are part of the text
+			if l.peek() == l.stringOpen {
 				l.next()
-				if t := l.peek(); t == '"' || t == '\'' {
+				if l.peek() == l.stringOpen {
 					l.next()
 					break __goon
 				}
